@@ -1,0 +1,5 @@
+//go:build !verif
+
+package link_holdopen_controller
+
+func verifGate(string) {}
